@@ -421,3 +421,588 @@ Theorem unpack_writes_no_shared_state : forall fuel host ct raw c off v e t,
 Proof.
   intros fuel host ct raw c off v e t Hct H. exact (proj2 (unpack_any_keeps _ _ _ _ _ _ _ _ _ Hct H)).
 Qed.
+
+(* ------------------------------------------------------------------------------------------ *)
+(** * Pack keeps the slots invariant                                                           *)
+(* ------------------------------------------------------------------------------------------ *)
+
+Lemma pack_seq_keeps (hb : bool) (dl : dstate) (rec : cid -> slots -> frs -> qres) (cf : lconf) (c : cid) (i : Z) (e : elem) (al : Z) :
+  forall (vs : list value) (s : slots) (fr : frs) (s' : slots) (fr' : frs),
+  slots_keep s -> Forall (fun a => vk a = true) vs ->
+  pack_seq hb dl rec cf c i e al vs s fr = KOk s' fr' -> slots_keep s'.
+Proof.
+  induction vs as [|v r IH]; intros s fr s' fr' Hs Hvs; cbn [pack_seq]; cbv zeta.
+  - intros H. injection H as <- _. exact Hs.
+  - inversion Hvs as [|? ? Hv Hr]; subst.
+    destruct (seq_align al (cur fr)) as [p|]; [|discriminate].
+    destruct (pack_elem hb dl rec cf c (FSeqElem i) e (slot_set s (FSeqElem i) v) (set_cur fr p)) as [s2 fr2| | |] eqn:E;
+      try discriminate.
+    apply CodegenEquiv.pack_elem_slots in E. subst s2. apply IH; [|exact Hr]. apply slots_keep_set; assumption.
+Qed.
+
+Lemma pack_field_keeps (hb : bool) (dl : dstate) (rec : cid -> slots -> frs -> qres) (cf : lconf) (c : cid) (f : cfield)
+      (s : slots) (fr : frs) (ipp : Z) (s1 : slots) (fr1 : frs) :
+  slots_keep s -> pack_field hb dl rec cf c f s fr ipp = KOk s1 fr1 -> slots_keep s1.
+Proof.
+  intros Hs.
+  destruct f as [i arg rf al|i e|i first last run0 shift mask nbytes d|i e cnt unt whn d al|i e whn d|i];
+    cbn [pack_field].
+  - destruct (match arg with MConst z => Ok z | MField g => _ | MFun e => _ end) as [z|x]; [|discriminate].
+    destruct (move_pack al rf z (cur fr) ipp) as [p|]; [|discriminate].
+    intros H. injection H as <- _. exact Hs.
+  - intros H. apply CodegenEquiv.pack_elem_slots in H. subst s1. exact Hs.
+  - destruct (slot_get s (FBitsI run0)) as [iv0|]; [|discriminate]. destruct (slot_get s (FN i)) as [v|]; [|discriminate].
+    destruct (as_int iv0) as [iv|]; [|discriminate]. destruct (as_int v) as [z|]; [|discriminate]. cbv zeta.
+    destruct last.
+    + destruct (encode nbytes false true _) as [b|]; [|discriminate]. intros H. apply CodegenEquiv.emit_slots in H. subst s1.
+      apply slots_keep_set; [exact Hs|reflexivity].
+    + intros H. injection H as <- _. apply slots_keep_set; [exact Hs|reflexivity].
+  - destruct (slot_get s (FN i)) as [v|] eqn:Es; [|discriminate]. destruct v; try discriminate.
+    apply pack_seq_keeps; [exact Hs|]. apply vk_list_iff. exact (slots_keep_get _ _ _ Hs Es).
+  - destruct (slot_get s (FN i)) as [v|] eqn:Es; [|discriminate].
+    assert (Hgen : pack_elem hb dl rec cf c (FOptElem i) e (slot_set s (FOptElem i) v) fr = KOk s1 fr1 -> slots_keep s1).
+    { intros H. apply CodegenEquiv.pack_elem_slots in H. subst s1. apply slots_keep_set; [exact Hs|].
+      exact (slots_keep_get _ _ _ Hs Es). }
+    destruct v; try exact Hgen. intros H. injection H as <- _. exact Hs.
+  - intros H. apply CodegenEquiv.emit_slots in H. subst s1. exact Hs.
+Qed.
+
+(* ------------------------------------------------------------------------------------------ *)
+(** * Pack does not read the delimiter state                                                   *)
+(* ------------------------------------------------------------------------------------------ *)
+
+Section PackReads.
+Variable hb : bool.
+Variables dl dl' : dstate.
+Variables rec1 rec2 : cid -> slots -> frs -> qres.
+Hypothesis Hrec : forall c ps fr, slots_keep ps -> rec1 c ps fr = rec2 c ps fr.
+
+Lemma pack_leaf_dl (cf : lconf) (c : cid) (name : fname) (l : leaf) (s : slots) (fr : frs) :
+  leaf_keeps l = true -> pack_leaf hb dl cf c name l s fr = pack_leaf hb dl' cf c name l s fr.
+Proof.
+  intros Hl. destruct l as [n sg fe d|size ic d|m incl d|r incl d|d]; try reflexivity.
+  cbn [leaf_keeps] in Hl. subst incl. reflexivity.
+Qed.
+
+Lemma pack_elem_dl (cf : lconf) (c : cid) (name : fname) (e : elem) (s : slots) (fr : frs) :
+  slots_keep s -> elem_keeps e = true ->
+  pack_elem hb dl rec1 cf c name e s fr = pack_elem hb dl' rec2 cf c name e s fr.
+Proof.
+  intros Hs He. destruct e as [l|c' pr|sel d]; cbn [pack_elem].
+  - apply pack_leaf_dl. exact He.
+  - destruct (slot_get s name) as [v|] eqn:Es; [|reflexivity]. destruct v; try reflexivity.
+    rewrite Hrec; [reflexivity|]. apply (vk_pkt_iff c0). exact (slots_keep_get _ _ _ Hs Es).
+  - cbn [elem_keeps] in He. destruct (slot_get s name) as [v|] eqn:Es; [|reflexivity].
+    assert (Hsel : match eval (pctx s) sel with
+                   | Exn x => KExn x (cur fr)
+                   | Ok (VLeaf l) => pack_leaf hb dl empty_conf c name l s fr
+                   | Ok _ => KExn NotImplementedError (cur fr)
+                   end =
+                   match eval (pctx s) sel with
+                   | Exn x => KExn x (cur fr)
+                   | Ok (VLeaf l) => pack_leaf hb dl' empty_conf c name l s fr
+                   | Ok _ => KExn NotImplementedError (cur fr)
+                   end).
+    { destruct (eval (pctx s) sel) as [x|] eqn:Ev; [|reflexivity].
+      assert (Hx : vk x = true) by exact (eval_keeps (pctx s) Hs sel x He Ev).
+      destruct x; try reflexivity. apply pack_leaf_dl. exact (vk_leaf _ Hx). }
+    destruct v; try exact Hsel.
+    rewrite Hrec; [reflexivity|]. apply (vk_pkt_iff c0). exact (slots_keep_get _ _ _ Hs Es).
+Qed.
+
+Lemma pack_seq_dl (cf : lconf) (c : cid) (i : Z) (e : elem) (al : Z) : elem_keeps e = true ->
+  forall (vs : list value) (s : slots) (fr : frs), slots_keep s -> Forall (fun a => vk a = true) vs ->
+  pack_seq hb dl rec1 cf c i e al vs s fr = pack_seq hb dl' rec2 cf c i e al vs s fr.
+Proof.
+  intros He. induction vs as [|v r IH]; intros s fr Hs Hvs; cbn [pack_seq]; cbv zeta; [reflexivity|].
+  inversion Hvs as [|? ? Hv Hr]; subst.
+  destruct (seq_align al (cur fr)) as [p|]; [|reflexivity].
+  assert (Hs1 : slots_keep (slot_set s (FSeqElem i) v)) by (apply slots_keep_set; assumption).
+  rewrite (pack_elem_dl cf c (FSeqElem i) e _ (set_cur fr p) Hs1 He).
+  destruct (pack_elem hb dl' rec2 cf c (FSeqElem i) e _ (set_cur fr p)) as [s2 fr2| | |] eqn:E; try reflexivity.
+  apply CodegenEquiv.pack_elem_slots in E. subst s2. apply IH; assumption.
+Qed.
+
+Lemma pack_field_dl (cf : lconf) (c : cid) (f : cfield) (s : slots) (fr : frs) (ipp : Z) :
+  slots_keep s -> cfield_keeps f = true ->
+  pack_field hb dl rec1 cf c f s fr ipp = pack_field hb dl' rec2 cf c f s fr ipp.
+Proof.
+  intros Hs Hf.
+  destruct f as [i arg rf al|i e|i first last run0 shift mask nbytes d|i e cnt unt whn d al|i e whn d|i];
+    cbn [pack_field]; cbn [cfield_keeps] in Hf; try reflexivity.
+  - apply pack_elem_dl; assumption.
+  - destruct (slot_get s (FN i)) as [v|] eqn:Es; [|reflexivity]. destruct v; try reflexivity.
+    apply pack_seq_dl; [exact Hf|exact Hs|]. apply vk_list_iff. exact (slots_keep_get _ _ _ Hs Es).
+  - destruct (slot_get s (FN i)) as [v|] eqn:Es; [|reflexivity].
+    assert (Hgen : pack_elem hb dl rec1 cf c (FOptElem i) e (slot_set s (FOptElem i) v) fr
+                 = pack_elem hb dl' rec2 cf c (FOptElem i) e (slot_set s (FOptElem i) v) fr).
+    { apply pack_elem_dl; [|exact Hf]. apply slots_keep_set; [exact Hs|exact (slots_keep_get _ _ _ Hs Es)]. }
+    destruct v; try exact Hgen. reflexivity.
+Qed.
+
+Lemma pack_fields_dl (cf : lconf) (c : cid) (ipp : Z) : forall (fs : list cfield) (s : slots) (fr : frs),
+  forallb cfield_keeps fs = true -> slots_keep s ->
+  pack_fields hb dl rec1 cf c fs s fr ipp = pack_fields hb dl' rec2 cf c fs s fr ipp.
+Proof.
+  induction fs as [|f r IH]; intros s fr Hfs Hs; cbn [pack_fields]; [reflexivity|].
+  cbn [forallb] in Hfs. apply andb_true_iff in Hfs as [Hf Hr].
+  rewrite (pack_field_dl cf c f s fr ipp Hs Hf).
+  destruct (pack_field hb dl' rec2 cf c f s fr ipp) as [s1 fr1| | |] eqn:E; try reflexivity.
+  apply IH; [exact Hr|]. exact (pack_field_keeps _ _ _ _ _ _ _ _ _ _ _ Hs E).
+Qed.
+
+Lemma pack_blocks_dl (cf : lconf) (c : cid) (ipp : Z) : forall (bs : list block) (s : slots) (fr : frs),
+  Forall (loops_sat cfield_keeps) bs -> slots_keep s ->
+  pack_blocks hb dl rec1 cf c bs s fr ipp = pack_blocks hb dl' rec2 cf c bs s fr ipp.
+Proof.
+  induction bs as [|b r IH]; intros s fr Hbs Hs; cbn [pack_blocks]; [reflexivity|].
+  inversion Hbs as [|? ? Hb Hr]; subst. destruct b as [big ms|f].
+  - destruct (struct_pack ms s) as [b|]; [|reflexivity]. destruct (append fr b) as [fr1| |]; try reflexivity.
+    apply IH; assumption.
+  - cbn [loops_sat] in Hb. rewrite (pack_field_dl cf c f s fr ipp Hs Hb).
+    destruct (pack_field hb dl' rec2 cf c f s fr ipp) as [s1 fr1| | |] eqn:E; try reflexivity.
+    apply IH; [exact Hr|]. exact (pack_field_keeps _ _ _ _ _ _ _ _ _ _ _ Hs E).
+Qed.
+End PackReads.
+
+(* ... and serializing never reads it: the outcome is the same whatever other packets' parses left there *)
+Theorem pack_reads_no_shared_state : forall fuel host dl dl' ct c s fr,
+  ct_keeps ct = true -> slots_keep s ->
+  pack_any fuel host dl ct c s fr = pack_any fuel host dl' ct c s fr.
+Proof.
+  induction fuel as [|fuel IH]; intros host dl dl' ct c s fr Hct Hs; cbn [pack_any]; [reflexivity|].
+  destruct (ct_get ct c) as [k|] eqn:Ek; [|reflexivity].
+  pose proof (ct_get_fields cfield_keeps ct c k Hct Ek) as Hk.
+  assert (Hrec : forall c ps fr, slots_keep ps -> pack_any fuel host dl ct c ps fr = pack_any fuel host dl' ct c ps fr).
+  { intros c0 ps fr0 Hps. apply IH; assumption. }
+  destruct (cc_gen_pack k).
+  - apply pack_blocks_dl; [exact Hrec| |exact Hs]. apply gen_blocks_loops. exact Hk.
+  - apply pack_fields_dl; [exact Hrec|exact Hk|exact Hs].
+Qed.
+
+(* ------------------------------------------------------------------------------------------ *)
+(** * Pack leaves the declared fields as they were                                             *)
+(* ------------------------------------------------------------------------------------------ *)
+
+Lemma pack_fields_fn (hb : bool) (dl : dstate) (rec : cid -> slots -> frs -> qres) (cf : lconf) (c : cid) (ipp : Z) :
+  forall (fs : list cfield) (s : slots) (fr : frs) (v : value) (fr' : frs),
+  pack_fields hb dl rec cf c fs s fr ipp = QOk v fr' -> exists s', v = VPkt c s' /\ fn_same s s'.
+Proof.
+  induction fs as [|f r IH]; intros s fr v fr'; cbn [pack_fields].
+  - intros H. injection H as <- _. exists s. split; [reflexivity|apply CodegenEquiv.fn_same_refl].
+  - destruct (pack_field hb dl rec cf c f s fr ipp) as [s1 fr1| | |] eqn:E; try discriminate.
+    apply CodegenEquiv.field_fn in E. intros H. destruct (IH _ _ _ _ H) as (s' & -> & Hs').
+    exists s'. split; [reflexivity|]. exact (CodegenEquiv.fn_same_trans _ _ _ E Hs').
+Qed.
+
+Lemma pack_blocks_fn (hb : bool) (dl : dstate) (rec : cid -> slots -> frs -> qres) (cf : lconf) (c : cid) (ipp : Z) :
+  forall (bs : list block) (s : slots) (fr : frs) (v : value) (fr' : frs),
+  pack_blocks hb dl rec cf c bs s fr ipp = QOk v fr' -> exists s', v = VPkt c s' /\ fn_same s s'.
+Proof.
+  induction bs as [|b r IH]; intros s fr v fr'; cbn [pack_blocks].
+  - intros H. injection H as <- _. exists s. split; [reflexivity|apply CodegenEquiv.fn_same_refl].
+  - destruct b as [big ms|f].
+    + destruct (struct_pack ms s) as [b|]; [|discriminate]. destruct (append fr b) as [fr1| |]; try discriminate.
+      apply IH.
+    + destruct (pack_field hb dl rec cf c f s fr ipp) as [s1 fr1| | |] eqn:E; try discriminate.
+      apply CodegenEquiv.field_fn in E. intros H. destruct (IH _ _ _ _ H) as (s' & -> & Hs').
+      exists s'. split; [reflexivity|]. exact (CodegenEquiv.fn_same_trans _ _ _ E Hs').
+Qed.
+
+(* serializing leaves every declared field of the packet as it was (only scratch slots are written) *)
+Theorem pack_preserves_fields : forall fuel host dl ct c s fr v fr',
+  pack_any fuel host dl ct c s fr = QOk v fr' ->
+  exists s', v = VPkt c s' /\ forall i, slot_get s' (FN i) = slot_get s (FN i).
+Proof.
+  intros [|fuel] host dl ct c s fr v fr'; cbn [pack_any]; [discriminate|].
+  destruct (ct_get ct c) as [k|]; [|discriminate].
+  destruct (cc_gen_pack k); [apply pack_blocks_fn|apply pack_fields_fn].
+Qed.
+
+(* ------------------------------------------------------------------------------------------ *)
+(** * Packing twice                                                                            *)
+(* ------------------------------------------------------------------------------------------ *)
+
+(* The statement without a restriction on what pack-time expressions read is false: a Move argument (or a Ref
+   selector) that mentions a scratch slot reads it before the pack rewrites it; the first pack sees the value
+   the caller left there, the second one the value the first pack left. *)
+Definition cex_class : cclass :=
+  {| cc_conf := empty_conf; cc_gen_pack := false; cc_gen_unpack := false; cc_vectorize := false;
+     cc_fields := [CMove 0 (MField (FSeqElem 1)) RBegins false;
+                   CSeq 1 (ELeafE (LInt 1 false None (VInt 0))) None None None (VList []) 1] |}.
+Example pack_twice_refuted_hidden_read :
+  ~ (forall fuel host dl ct c s b s',
+       ct_no_bits ct = true ->
+       pack_any_top fuel host dl ct c s = PBytes b (VPkt c s') ->
+       exists s'', pack_any_top fuel host dl ct c s' = PBytes b (VPkt c s'')).
+Proof.
+  intros H.
+  specialize (H 3%nat false (fun _ _ => []) [(0, cex_class)] 0 [(FN 1, VList [VInt 5]); (FSeqElem 1, VInt 0)]
+                [5] [(FN 1, VList [VInt 5]); (FSeqElem 1, VInt 5)] eq_refl eq_refl).
+  destruct H as [s'' H]. vm_compute in H. discriminate H.
+Qed.
+
+(* the names a pack-time expression reads from the packet being packed (attributes of nested packets, EAttr, are
+   not restricted: pack does not change a nested packet value) *)
+Fixpoint expr_reads (N : fname -> bool) (e : expr) {struct e} : bool :=
+  match e with
+  | ELit _ | EOffset | ERawLen => true
+  | EField f => N f
+  | EUn _ a => expr_reads N a
+  | EBin _ l r => expr_reads N l && expr_reads N r
+  | EChoose s opts =>
+      expr_reads N s && (fix go (l : list expr) : bool := match l with [] => true | a :: r => expr_reads N a && go r end) opts
+  | EChooseD s _ opts =>
+      expr_reads N s && (fix go (l : list expr) : bool := match l with [] => true | a :: r => expr_reads N a && go r end) opts
+  | EIte c a b => expr_reads N c && expr_reads N a && expr_reads N b
+  | EAttr a _ => expr_reads N a
+  end.
+Definition marg_reads (N : fname -> bool) (m : marg) : bool :=
+  match m with MConst _ => true | MField g => N g | MFun e => expr_reads N e end.
+Definition elem_reads (N : fname -> bool) (e : elem) : bool :=
+  match e with ERefSel sel _ => expr_reads N sel | _ => true end.
+(* what pack_field reads before writing it (count / until / when / sizes are not evaluated by pack) *)
+Definition cfield_reads (N : fname -> bool) (f : cfield) : bool :=
+  match f with
+  | CMove _ arg _ _ => marg_reads N arg
+  | CElem _ e | CSeq _ e _ _ _ _ _ | COpt _ e _ _ => elem_reads N e
+  | CBits _ _ _ run0 _ _ _ _ => N (FBitsI run0)
+  | CEm _ => true
+  end.
+Definition ct_reads (N : fname -> bool) (ct : ctab) : bool :=
+  forallb (fun ck => forallb (cfield_reads N) (cc_fields (snd ck))) ct.
+
+Definition is_fn (f : fname) : bool := match f with FN _ => true | _ => false end.
+(* every Move argument and every Ref selector mentions declared fields only (what the declaration language can say) *)
+Definition cfield_pack_fn (f : cfield) : bool := is_bits f || cfield_reads is_fn f.
+Definition ct_pack_exprs_fn (ct : ctab) : bool :=
+  forallb (fun ck => forallb cfield_pack_fn (cc_fields (snd ck))) ct.
+
+Section PackMono.
+Variable hb : bool.
+Variable dl : dstate.
+Variable rec : cid -> slots -> frs -> qres.
+Variable N : fname -> bool.
+Hypothesis HN : forall i, N (FN i) = true.
+
+(* s2 has every N-slot of s1, with the same value *)
+Definition sub (s1 s2 : slots) : Prop := forall f v, N f = true -> slot_get s1 f = Some v -> slot_get s2 f = Some v.
+
+Lemma sub_set (s1 s2 : slots) (h : fname) (v : value) : sub s1 s2 -> sub (slot_set s1 h v) (slot_set s2 h v).
+Proof.
+  intros H f w Hf. rewrite !CodegenEquiv.slot_get_set. destruct (fname_eqb f h); [auto|]. apply H. exact Hf.
+Qed.
+Lemma get_set_same (s1 s2 : slots) (h : fname) (v : value) :
+  forall x, slot_get (slot_set s1 h v) h = Some x -> slot_get (slot_set s2 h v) h = Some x.
+Proof. intros x. rewrite !CodegenEquiv.slot_get_set, CodegenEquiv.fname_eqb_refl. auto. Qed.
+
+Lemma eval_sub (s1 s2 : slots) : sub s1 s2 ->
+  forall e v, expr_reads N e = true -> eval (pctx s1) e = Ok v -> eval (pctx s2) e = Ok v.
+Proof.
+  intros Hsub. fix IH 1. intros e. destruct e as [w|f|o a|o l r|sel opts|sel keys opts|c a b|a f| |]; intros v Hs He.
+  - exact He.
+  - cbn [expr_reads] in Hs. cbn [eval pctx e_slots] in *.
+    destruct (slot_get s1 f) as [x|] eqn:G; [|discriminate].
+    rewrite (Hsub f x Hs G). exact He.
+  - cbn [expr_reads] in Hs. cbn [eval] in *.
+    destruct (eval (pctx s1) a) as [x|] eqn:E1; [|discriminate].
+    rewrite (IH a x Hs E1). exact He.
+  - cbn [expr_reads] in Hs. apply andb_true_iff in Hs as [Hs1 Hs2]. cbn [eval] in *.
+    destruct (eval (pctx s1) l) as [x|] eqn:E1; [|discriminate]. cbn [bind] in He.
+    destruct (eval (pctx s1) r) as [y|] eqn:E2; [|discriminate].
+    rewrite (IH l x Hs1 E1). cbn [bind]. rewrite (IH r y Hs2 E2). exact He.
+  - cbn [expr_reads] in Hs. apply andb_true_iff in Hs as [Hs1 Hs2]. cbn [eval] in *.
+    destruct (eval (pctx s1) sel) as [x|] eqn:E1; [|discriminate]. cbn [bind] in He.
+    rewrite (IH sel x Hs1 E1). cbn [bind].
+    match type of He with bind ?G _ = _ => destruct G as [vs|] eqn:E2; [|discriminate] end.
+    match goal with |- bind ?G _ = _ => assert (E3 : G = Ok vs) end.
+    { clear He. revert vs Hs2 E2. induction opts as [|a r IHr]; intros vs Hs2 E2.
+      - exact E2.
+      - apply andb_true_iff in Hs2 as [Ha Hr].
+        destruct (eval (pctx s1) a) as [y|] eqn:Ea; [|discriminate]. cbn [bind] in E2.
+        rewrite (IH a y Ha Ea). cbn [bind].
+        match type of E2 with bind ?G _ = _ => destruct G as [ys|] eqn:Er; [|discriminate] end.
+        rewrite (IHr ys Hr eq_refl). exact E2. }
+    rewrite E3. exact He.
+  - cbn [expr_reads] in Hs. apply andb_true_iff in Hs as [Hs1 Hs2]. cbn [eval] in *.
+    destruct (eval (pctx s1) sel) as [x|] eqn:E1; [|discriminate]. cbn [bind] in He.
+    rewrite (IH sel x Hs1 E1). cbn [bind].
+    match type of He with bind ?G _ = _ => destruct G as [vs|] eqn:E2; [|discriminate] end.
+    match goal with |- bind ?G _ = _ => assert (E3 : G = Ok vs) end.
+    { clear He. revert vs Hs2 E2. induction opts as [|a r IHr]; intros vs Hs2 E2.
+      - exact E2.
+      - apply andb_true_iff in Hs2 as [Ha Hr].
+        destruct (eval (pctx s1) a) as [y|] eqn:Ea; [|discriminate]. cbn [bind] in E2.
+        rewrite (IH a y Ha Ea). cbn [bind].
+        match type of E2 with bind ?G _ = _ => destruct G as [ys|] eqn:Er; [|discriminate] end.
+        rewrite (IHr ys Hr eq_refl). exact E2. }
+    rewrite E3. exact He.
+  - cbn [expr_reads] in Hs. apply andb_true_iff in Hs as [Hs12 Hs3]. apply andb_true_iff in Hs12 as [Hs1 Hs2].
+    cbn [eval] in *.
+    destruct (eval (pctx s1) c) as [x|] eqn:E1; [|discriminate]. cbn [bind] in He.
+    destruct (eval (pctx s1) a) as [y|] eqn:E2; [|discriminate]. cbn [bind] in He.
+    destruct (eval (pctx s1) b) as [z|] eqn:E3; [|discriminate].
+    rewrite (IH c x Hs1 E1). cbn [bind]. rewrite (IH a y Hs2 E2). cbn [bind]. rewrite (IH b z Hs3 E3). exact He.
+  - cbn [expr_reads] in Hs. cbn [eval] in *.
+    destruct (eval (pctx s1) a) as [x|] eqn:E1; [|discriminate].
+    rewrite (IH a x Hs E1). exact He.
+  - exact He.
+  - exact He.
+Qed.
+
+Lemma emit_sub (s1 s2 : slots) (fr : frs) (b : bytes) (s1' : slots) (fr' : frs) :
+  emit s1 fr b = KOk s1' fr' -> emit s2 fr b = KOk s2 fr'.
+Proof. unfold emit. destruct (append fr b); intros H; try discriminate H. injection H as _ <-. reflexivity. Qed.
+
+Lemma pack_leaf_sub (cf : lconf) (c : cid) (name : fname) (l : leaf) (s1 s2 : slots) (fr : frs) (s1' : slots) (fr' : frs) :
+  (forall x, slot_get s1 name = Some x -> slot_get s2 name = Some x) ->
+  pack_leaf hb dl cf c name l s1 fr = KOk s1' fr' -> pack_leaf hb dl cf c name l s2 fr = KOk s2 fr'.
+Proof.
+  intros Hn. unfold pack_leaf. destruct (slot_get s1 name) as [v|]; [|discriminate]. rewrite (Hn v eq_refl).
+  destruct l as [n sg fe d|size ic d|m incl d|r incl d|d].
+  - destruct (as_int v) as [z|]; [|discriminate]. destruct (encode n sg _ z) as [b|]; [|discriminate]. apply emit_sub.
+  - destruct v; try discriminate. apply emit_sub.
+  - destruct v; try discriminate. apply emit_sub.
+  - destruct v; try discriminate. apply emit_sub.
+  - destruct v; try discriminate. apply emit_sub.
+Qed.
+
+Lemma pack_elem_sub (cf : lconf) (c : cid) (name : fname) (e : elem) (s1 s2 : slots) (fr : frs) (s1' : slots) (fr' : frs) :
+  sub s1 s2 -> (forall x, slot_get s1 name = Some x -> slot_get s2 name = Some x) -> elem_reads N e = true ->
+  pack_elem hb dl rec cf c name e s1 fr = KOk s1' fr' -> pack_elem hb dl rec cf c name e s2 fr = KOk s2 fr'.
+Proof.
+  intros Hsub Hn He. destruct e as [l|c' pr|sel d]; cbn [pack_elem].
+  - apply pack_leaf_sub. exact Hn.
+  - destruct (slot_get s1 name) as [v|]; [|discriminate]. rewrite (Hn v eq_refl).
+    destruct v; try discriminate. destruct (rec c0 slots fr); intros H; try discriminate H.
+    injection H as _ <-. reflexivity.
+  - cbn [elem_reads] in He. destruct (slot_get s1 name) as [v|] eqn:Es; [|discriminate]. rewrite (Hn v eq_refl).
+    assert (Hsel : match eval (pctx s1) sel with
+                   | Exn x => KExn x (cur fr)
+                   | Ok (VLeaf l) => pack_leaf hb dl empty_conf c name l s1 fr
+                   | Ok _ => KExn NotImplementedError (cur fr)
+                   end = KOk s1' fr' ->
+                   match eval (pctx s2) sel with
+                   | Exn x => KExn x (cur fr)
+                   | Ok (VLeaf l) => pack_leaf hb dl empty_conf c name l s2 fr
+                   | Ok _ => KExn NotImplementedError (cur fr)
+                   end = KOk s2 fr').
+    { destruct (eval (pctx s1) sel) as [x|] eqn:Ev; [|discriminate].
+      rewrite (eval_sub s1 s2 Hsub sel x He Ev). destruct x; try discriminate.
+      apply pack_leaf_sub. intros y Hy. apply Hn. rewrite <- Hy. symmetry. exact Es. }
+    destruct v; try exact Hsel.
+    destruct (rec c0 slots fr); intros H; try discriminate H. injection H as _ <-. reflexivity.
+Qed.
+
+Lemma pack_seq_sub (cf : lconf) (c : cid) (i : Z) (e : elem) (al : Z) : elem_reads N e = true ->
+  forall (vs : list value) (s1 s2 : slots) (fr : frs) (s1' : slots) (fr' : frs), sub s1 s2 ->
+  pack_seq hb dl rec cf c i e al vs s1 fr = KOk s1' fr' ->
+  exists s2', pack_seq hb dl rec cf c i e al vs s2 fr = KOk s2' fr' /\ sub s1' s2'.
+Proof.
+  intros He. induction vs as [|v r IH]; intros s1 s2 fr s1' fr' Hsub; cbn [pack_seq]; cbv zeta.
+  - intros H. injection H as <- <-. exists s2. split; [reflexivity|exact Hsub].
+  - destruct (seq_align al (cur fr)) as [p|]; [|discriminate].
+    destruct (pack_elem hb dl rec cf c (FSeqElem i) e (slot_set s1 (FSeqElem i) v) (set_cur fr p)) as [sa fra| | |] eqn:E;
+      try discriminate.
+    pose proof (CodegenEquiv.pack_elem_slots _ _ _ _ _ _ _ _ _ _ _ E) as Hsa. subst sa.
+    rewrite (pack_elem_sub cf c (FSeqElem i) e _ (slot_set s2 (FSeqElem i) v) _ _ _
+               (sub_set _ _ _ _ Hsub) (get_set_same _ _ _ _) He E).
+    apply IH. apply sub_set. exact Hsub.
+Qed.
+
+Lemma pack_field_sub (cf : lconf) (c : cid) (f : cfield) (s1 s2 : slots) (fr : frs) (ipp : Z) (s1' : slots) (fr' : frs) :
+  sub s1 s2 -> cfield_reads N f = true ->
+  pack_field hb dl rec cf c f s1 fr ipp = KOk s1' fr' ->
+  exists s2', pack_field hb dl rec cf c f s2 fr ipp = KOk s2' fr' /\ sub s1' s2'.
+Proof.
+  intros Hsub Hf.
+  destruct f as [i arg rf al|i e|i first last run0 shift mask nbytes d|i e cnt unt whn d al|i e whn d|i];
+    cbn [pack_field]; cbn [cfield_reads] in Hf.
+  - assert (Hmv : forall z,
+      match arg with
+      | MConst z => Ok z
+      | MField g => match slot_get s1 g with
+                    | Some v => match as_int v with Some z => Ok z | None => Exn TypeError end
+                    | None => Exn AttributeError
+                    end
+      | MFun e => eval_int (pctx s1) e
+      end = Ok z ->
+      match arg with
+      | MConst z => Ok z
+      | MField g => match slot_get s2 g with
+                    | Some v => match as_int v with Some z => Ok z | None => Exn TypeError end
+                    | None => Exn AttributeError
+                    end
+      | MFun e => eval_int (pctx s2) e
+      end = Ok z).
+    { intros z. destruct arg as [z0|g|e]; cbn [marg_reads] in Hf.
+      - auto.
+      - destruct (slot_get s1 g) as [v|] eqn:G; [|discriminate]. rewrite (Hsub g v Hf G). auto.
+      - unfold eval_int. destruct (eval (pctx s1) e) as [v|] eqn:Ev; [|discriminate].
+        rewrite (eval_sub s1 s2 Hsub e v Hf Ev). auto. }
+    destruct (match arg with MConst z => Ok z | MField g => _ | MFun e => _ end) as [z|x] eqn:Em; [|discriminate].
+    rewrite (Hmv z eq_refl).
+    destruct (move_pack al rf z (cur fr) ipp) as [p|]; [|discriminate].
+    intros H. injection H as <- <-. exists s2. split; [reflexivity|exact Hsub].
+  - intros H. pose proof (CodegenEquiv.pack_elem_slots _ _ _ _ _ _ _ _ _ _ _ H) as Hs. subst s1'.
+    exists s2. split; [|exact Hsub].
+    apply (pack_elem_sub cf c (FN i) e s1 s2 fr s1 fr' Hsub); [|exact Hf|exact H].
+    intros x. apply Hsub. apply HN.
+  - destruct (slot_get s1 (FBitsI run0)) as [iv0|] eqn:G0; [|discriminate]. rewrite (Hsub _ _ Hf G0).
+    destruct (slot_get s1 (FN i)) as [v|] eqn:G1; [|discriminate]. rewrite (Hsub _ _ (HN i) G1).
+    destruct (as_int iv0) as [iv|]; [|discriminate]. destruct (as_int v) as [z|]; [|discriminate]. cbv zeta.
+    destruct last.
+    + destruct (encode nbytes false true _) as [b|]; [|discriminate]. intros H.
+      pose proof (CodegenEquiv.emit_slots _ _ _ _ _ H) as Hs. subst s1'.
+      eexists. split; [exact (emit_sub _ _ _ _ _ _ H)|]. apply sub_set. exact Hsub.
+    + intros H. injection H as <- <-. eexists. split; [reflexivity|]. apply sub_set. exact Hsub.
+  - destruct (slot_get s1 (FN i)) as [v|] eqn:G1; [|discriminate]. rewrite (Hsub _ _ (HN i) G1).
+    destruct v; try discriminate. apply pack_seq_sub; assumption.
+  - destruct (slot_get s1 (FN i)) as [v|] eqn:G1; [|discriminate]. rewrite (Hsub _ _ (HN i) G1).
+    assert (Hgen : pack_elem hb dl rec cf c (FOptElem i) e (slot_set s1 (FOptElem i) v) fr = KOk s1' fr' ->
+                   exists s2', pack_elem hb dl rec cf c (FOptElem i) e (slot_set s2 (FOptElem i) v) fr = KOk s2' fr' /\
+                               sub s1' s2').
+    { intros H. pose proof (CodegenEquiv.pack_elem_slots _ _ _ _ _ _ _ _ _ _ _ H) as Hs. subst s1'.
+      eexists. split; [|apply sub_set; exact Hsub].
+      exact (pack_elem_sub cf c (FOptElem i) e _ (slot_set s2 (FOptElem i) v) _ _ _
+               (sub_set _ _ _ _ Hsub) (get_set_same _ _ _ _) Hf H). }
+    destruct v; try exact Hgen. intros H. injection H as <- <-. exists s2. split; [reflexivity|exact Hsub].
+  - intros H. pose proof (CodegenEquiv.emit_slots _ _ _ _ _ H) as Hs. subst s1'.
+    exists s2. split; [exact (emit_sub _ _ _ _ _ _ H)|exact Hsub].
+Qed.
+
+Lemma pack_fields_sub (cf : lconf) (c : cid) (ipp : Z) : forall (fs : list cfield) (s1 s2 : slots) (fr : frs) v fr',
+  forallb (cfield_reads N) fs = true -> sub s1 s2 ->
+  pack_fields hb dl rec cf c fs s1 fr ipp = QOk v fr' ->
+  exists s2', pack_fields hb dl rec cf c fs s2 fr ipp = QOk (VPkt c s2') fr'.
+Proof.
+  induction fs as [|f r IH]; intros s1 s2 fr v fr' Hfs Hsub; cbn [pack_fields].
+  - intros H. injection H as _ <-. exists s2. reflexivity.
+  - cbn [forallb] in Hfs. apply andb_true_iff in Hfs as [Hf Hr].
+    destruct (pack_field hb dl rec cf c f s1 fr ipp) as [sa fra| | |] eqn:E; try discriminate.
+    destruct (pack_field_sub cf c f s1 s2 fr ipp sa fra Hsub Hf E) as (sb & -> & Hsb).
+    apply IH; assumption.
+Qed.
+
+Lemma struct_pack_sub (s1 s2 : slots) : sub s1 s2 -> forall ms b, struct_pack ms s1 = Ok b -> struct_pack ms s2 = Ok b.
+Proof.
+  intros Hsub. induction ms as [|m r IH]; intros b; cbn [struct_pack]; [auto|].
+  destruct (slot_get s1 (FN (sm_index m))) as [v|] eqn:G; [|discriminate]. rewrite (Hsub _ _ (HN _) G).
+  match goal with |- bind ?X _ = _ -> _ => destruct X as [b0|]; [|discriminate] end. cbn [bind].
+  destruct (struct_pack r s1) as [rest|]; [|discriminate]. rewrite (IH rest eq_refl). auto.
+Qed.
+
+Lemma pack_blocks_sub (cf : lconf) (c : cid) (ipp : Z) : forall (bs : list block) (s1 s2 : slots) (fr : frs) v fr',
+  Forall (loops_sat (cfield_reads N)) bs -> sub s1 s2 ->
+  pack_blocks hb dl rec cf c bs s1 fr ipp = QOk v fr' ->
+  exists s2', pack_blocks hb dl rec cf c bs s2 fr ipp = QOk (VPkt c s2') fr'.
+Proof.
+  induction bs as [|b r IH]; intros s1 s2 fr v fr' Hbs Hsub; cbn [pack_blocks].
+  - intros H. injection H as _ <-. exists s2. reflexivity.
+  - inversion Hbs as [|? ? Hb Hr]; subst. destruct b as [big ms|f].
+    + destruct (struct_pack ms s1) as [b|] eqn:E; [|discriminate]. rewrite (struct_pack_sub s1 s2 Hsub ms b E).
+      destruct (append fr b) as [fr1| |]; try discriminate. apply IH; assumption.
+    + cbn [loops_sat] in Hb.
+      destruct (pack_field hb dl rec cf c f s1 fr ipp) as [sa fra| | |] eqn:E; try discriminate.
+      destruct (pack_field_sub cf c f s1 s2 fr ipp sa fra Hsub Hb E) as (sb & -> & Hsb).
+      apply IH; assumption.
+Qed.
+End PackMono.
+
+Lemma pack_any_sub (N : fname -> bool) : (forall i, N (FN i) = true) ->
+  forall fuel host dl ct c s1 s2 fr v fr',
+  ct_reads N ct = true -> sub N s1 s2 ->
+  pack_any fuel host dl ct c s1 fr = QOk v fr' ->
+  exists s2', pack_any fuel host dl ct c s2 fr = QOk (VPkt c s2') fr'.
+Proof.
+  intros HN [|fuel] host dl ct c s1 s2 fr v fr' Hct Hsub; cbn [pack_any]; [discriminate|].
+  destruct (ct_get ct c) as [k|] eqn:Ek; [|discriminate].
+  pose proof (ct_get_fields (cfield_reads N) ct c k Hct Ek) as Hk.
+  destruct (cc_gen_pack k).
+  - apply (pack_blocks_sub host dl _ N HN); [|exact Hsub]. apply gen_blocks_loops. exact Hk.
+  - apply (pack_fields_sub host dl _ N HN); [exact Hk|exact Hsub].
+Qed.
+
+(* the general form: N is any set of names containing the declared ones; the pack-time expressions read N only
+   and the packet given to the first pack has no scratch slot in N *)
+Theorem pack_twice_same_bytes_gen (N : fname -> bool) : forall fuel host dl ct c s b s',
+  (forall i, N (FN i) = true) ->
+  ct_reads N ct = true ->
+  (forall f, N f = true -> is_fn f = true \/ slot_get s f = None) ->
+  pack_any_top fuel host dl ct c s = PBytes b (VPkt c s') ->
+  exists s'', pack_any_top fuel host dl ct c s' = PBytes b (VPkt c s'').
+Proof.
+  intros fuel host dl ct c s b s' HN Hct Hs. unfold pack_any_top.
+  destruct (pack_any fuel host dl ct c s empty) as [v fr| |] eqn:E; try discriminate.
+  intros H. injection H as <- ->.
+  destruct (pack_preserves_fields _ _ _ _ _ _ _ _ _ E) as (s0 & E0 & Hfn). injection E0 as <-.
+  assert (Hsub : sub N s s').
+  { intros f v Hf G. destruct (Hs f Hf) as [Hfn'|Hnone]; [|rewrite Hnone in G; discriminate].
+    destruct f; try discriminate. rewrite Hfn. exact G. }
+  destruct (pack_any_sub N HN _ _ _ _ _ _ _ _ _ _ Hct Hsub E) as (s2' & ->).
+  exists s2'. reflexivity.
+Qed.
+
+Lemma ct_reads_fn (ct : ctab) : ct_no_bits ct = true -> ct_pack_exprs_fn ct = true -> ct_reads is_fn ct = true.
+Proof.
+  unfold ct_no_bits, ct_pack_exprs_fn, ct_reads. induction ct as [|[c k] r IH]; cbn [forallb snd]; [reflexivity|].
+  intros H1 H2. apply andb_true_iff in H1 as [A1 B1]. apply andb_true_iff in H2 as [A2 B2].
+  apply andb_true_iff. split; [|exact (IH B1 B2)].
+  clear - A1 A2. induction (cc_fields k) as [|f fs IHf]; cbn [forallb] in *; [reflexivity|].
+  apply andb_true_iff in A1 as [a1 b1]. apply andb_true_iff in A2 as [a2 b2].
+  apply andb_true_iff. split; [|exact (IHf b1 b2)].
+  unfold cfield_pack_fn in a2. destruct (is_bits f); [discriminate|exact a2].
+Qed.
+
+(* and serializing again returns the same bytes (declarations without bit runs; for bit runs see
+   C07_pack_stale_irrelevant) -- CHANGED with respect to notes/stmts/S8_world.v: the hypothesis ct_pack_exprs_fn is
+   new (pack_twice_refuted_hidden_read above shows that the statement without it is false) *)
+Theorem pack_twice_same_bytes : forall fuel host dl ct c s b s',
+  ct_no_bits ct = true ->
+  ct_pack_exprs_fn ct = true ->
+  pack_any_top fuel host dl ct c s = PBytes b (VPkt c s') ->
+  exists s'', pack_any_top fuel host dl ct c s' = PBytes b (VPkt c s'').
+Proof.
+  intros fuel host dl ct c s b s' Hnb Hfn.
+  apply (pack_twice_same_bytes_gen is_fn); [reflexivity|exact (ct_reads_fn ct Hnb Hfn)|].
+  intros f Hf. left. exact Hf.
+Qed.
+
+(* variant: any declarations (bit runs too), but a packet with declared names only (as a constructor builds it) *)
+Lemma expr_reads_all : forall e, expr_reads (fun _ => true) e = true.
+Proof.
+  fix IH 1. intros e. destruct e as [w|f|o a|o l r|sel opts|sel keys opts|c a b|a f| |]; cbn [expr_reads]; try reflexivity.
+  - apply IH.
+  - rewrite (IH l), (IH r). reflexivity.
+  - rewrite (IH sel). cbn [andb]. induction opts as [|a r IHr]; [reflexivity|]. rewrite (IH a). exact IHr.
+  - rewrite (IH sel). cbn [andb]. induction opts as [|a r IHr]; [reflexivity|]. rewrite (IH a). exact IHr.
+  - rewrite (IH c), (IH a), (IH b). reflexivity.
+  - apply IH.
+Qed.
+Lemma ct_reads_all (ct : ctab) : ct_reads (fun _ => true) ct = true.
+Proof.
+  unfold ct_reads. apply forallb_forall. intros [c k] _. apply forallb_forall. intros f _.
+  destruct f as [i arg rf al|i e|i first last run0 shift mask nbytes d|i e cnt unt whn d al|i e whn d|i];
+    cbn [cfield_reads]; try reflexivity;
+    try (destruct e as [l|c' pr|sel d']; cbn [elem_reads]; [reflexivity|reflexivity|apply expr_reads_all]).
+  destruct arg; cbn [marg_reads]; [reflexivity|reflexivity|apply expr_reads_all].
+Qed.
+
+Theorem pack_twice_same_bytes_fresh : forall fuel host dl ct c s b s',
+  (forall f v, slot_get s f = Some v -> exists i, f = FN i) ->
+  pack_any_top fuel host dl ct c s = PBytes b (VPkt c s') ->
+  exists s'', pack_any_top fuel host dl ct c s' = PBytes b (VPkt c s'').
+Proof.
+  intros fuel host dl ct c s b s' Hs.
+  apply (pack_twice_same_bytes_gen (fun _ => true)); [reflexivity|apply ct_reads_all|].
+  intros f _. destruct (slot_get s f) as [v|] eqn:G; [|right; reflexivity].
+  destruct (Hs f v G) as [i ->]. left. reflexivity.
+Qed.
+
+Print Assumptions unpack_writes_no_shared_state.
+Print Assumptions pack_reads_no_shared_state.
+Print Assumptions pack_preserves_fields.
+Print Assumptions pack_twice_same_bytes.
+Print Assumptions pack_twice_same_bytes_gen.
+Print Assumptions pack_twice_same_bytes_fresh.
+Print Assumptions pack_twice_refuted_hidden_read.
